@@ -95,6 +95,11 @@ type Case struct {
 	Sink     string `json:"sink,omitempty"`
 	S3Batch  int    `json:"s3_batch,omitempty"`
 	KeySpace string `json:"key_space,omitempty"`
+	// MethodSpelling: how --partition-method is WRITTEN on the command line / in the environment when it is not
+	// the canonical lower-case name ("TABLENAME", "Transaction ", ...).  Method then says what the unchanged
+	// binary makes of it (an unknown name is silently "none").  Whatever a binary makes of the spelling, the
+	// partitioner and the Kinesis batch factory must make the SAME of it (see the evidence monitor of C06).
+	MethodSpelling string `json:"method_spelling,omitempty"`
 	// DecodeErrLsn != 0: the walsender raises a decoding ERROR (ErrorResponse, stream over) instead of
 	// sending the row change at this position, every time a stream reaches it; IDENTIFY_SYSTEM then
 	// reports that transaction's COMMIT position.  The rest of that transaction is the gap pg-bifrost
@@ -246,7 +251,11 @@ func (c Case) cmdline(pgPort, kinPort int) (args, env []string) {
 	opt("batch-queue-depth", "BATCH_QUEUE_DEPTH", strconv.Itoa(c.QueueDepth))
 	opt("batcher-tick-rate", "BATCHER_TICK_RATE", strconv.Itoa(c.Tick))
 	opt("batcher-routing-method", "BATCHER_ROUTING_METHOD", c.Routing)
-	opt("partition-method", "PARTITION_METHOD", c.Method)
+	if c.MethodSpelling != "" {
+		opt("partition-method", "PARTITION_METHOD", c.MethodSpelling)
+	} else {
+		opt("partition-method", "PARTITION_METHOD", c.Method)
+	}
 	opt("partition-count", "PARTITION_COUNT", strconv.Itoa(c.Buckets))
 	if c.ViaEnv {
 		if len(c.Whitelist) > 0 {
@@ -1412,10 +1421,12 @@ func monitor(c Case, r result) (vs []core.Violation) {
 		ch        Change
 	}
 	at := map[uint64]where{}
+	byRank := map[int]Change{}
 	n := 0
 	for i, t := range c.Txns {
 		for _, ch := range t.Changes {
 			at[ch.Lsn] = where{i, n, ch}
+			byRank[n] = ch
 			n++
 		}
 	}
@@ -1556,6 +1567,39 @@ func monitor(c Case, r result) (vs []core.Violation) {
 					} else {
 						lastRank[key], lastLsn[key] = wh.rank, rc.Lsn
 					}
+				}
+			}
+			// C06 without reference to the configuration: a request that holds two changes while a change
+			// delivered BETWEEN them (and forwarded) travels in another request was not cut out of the stream by
+			// a tick: the batcher composed it by partition key.  The records of such a partitioned batch must
+			// all carry ONE Kinesis partition key (the batch's).
+			if c.Sink == "" && undisturbed {
+				var ranks []int
+				pks := map[string]bool{}
+				clean := true
+				for _, rc := range e.Recs {
+					if rc.Bad != "" {
+						clean = false
+						break
+					}
+					ranks = append(ranks, at[rc.Lsn].rank)
+					pks[rc.PK] = true
+				}
+				sort.Ints(ranks)
+				inCall := map[int]bool{}
+				for _, r := range ranks {
+					inCall[r] = true
+				}
+				evident := false
+				for i := 0; clean && i+1 < len(ranks); i++ {
+					for r := ranks[i] + 1; r < ranks[i+1]; r++ {
+						if ch, ok := byRank[r]; ok && c.expected(ch) && !inCall[r] {
+							evident = true
+						}
+					}
+				}
+				if evident && len(pks) > 1 {
+					add("C06", "app/partitioned-batch-records-carry-different-keys", fmt.Sprintf("call %d holds changes between which other forwarded changes were delivered that travel in other requests (a batch composed by partition key), yet its %d records carry %d different Kinesis partition keys: the partitioner and the Kinesis batch factory do not agree on the partition method (--partition-method %q)", k, len(e.Recs), len(pks), map[bool]string{true: c.Method, false: c.MethodSpelling}[c.MethodSpelling == ""]))
 				}
 			}
 			if len(keys) > 1 {
@@ -1853,6 +1897,11 @@ func genCase(rng *rand.Rand) Case {
 		c.Sink = "s3"
 		c.S3Batch = []int{1, 2, 3, 5, 50000}[rng.Intn(5)]
 		c.KeySpace = []string{"", "ks", "verif/app", "/lead/"}[rng.Intn(4)]
+	}
+	if c.Sink == "" && c.Method != "none" && c.Stall == 0 && rng.Intn(10) == 0 {
+		// a non-canonical spelling: the unchanged binary takes an unknown name for "none"
+		c.MethodSpelling = []string{strings.ToUpper(c.Method), strings.Title(c.Method), c.Method + " ", " " + c.Method}[rng.Intn(4)]
+		c.Method = "none"
 	}
 	return c
 }
